@@ -41,20 +41,23 @@ TRUSTED_BASE = [
     "Print Assumptions: every C14 theorem is closed under the global context (no axioms)",
     "hand-written model coq/C14/Model.v of Species' bookkeeping (ghost geometry/frame/order identities), tied to /repo by the step-by-step correspondence of this harness (error class, present flags, freshness bits, labels, edges, multiplicity after every operation)",
     "the harness' analytic potential (harmonic all-pairs network, closed-form gradient and Hessian, checked against central finite differences at start-up) and its own mass-weighted projection for frequencies / normal modes",
-    "oracle bits of the coordinates setter (Kabsch RMSD > 1e-8, pure translation) are supplied by construction of the input (exact rigid image vs. >= 0.05 A distortion), never taken from the implementation",
+    "oracle bits of the coordinates setter (Kabsch RMSD > 1e-8, pure translation) are supplied by construction of the input (exact rigid image up to rounding, rotations >= 1e-4 rad, distortions >= 1e-6 A per component), never taken from the implementation",
     "numpy linear algebra; Python float arithmetic (comparisons at 1e-8 abs/rel, frequencies 1e-6 rel)",
 ]
 ASSUMPTIONS = [
-    "the model identifies geometries up to the setter's own tolerance (RMSD <= 1e-8 A after Kabsch alignment counts as the same geometry); generated inputs are exact rigid images or distortions >= 0.05 A, nothing in between",
+    "the model identifies geometries up to the setter's own tolerance (RMSD <= 1e-8 A after Kabsch alignment counts as the same geometry); generated inputs are exact rigid images (rounding ~1e-16) or changes >= 1e-6 A / 1e-4 rad, nothing between 1e-15 and 1e-6 A, so the exact position of the 1e-8 thresholds is not observed",
     "numbers are abstracted to identities in the state machine: that 'rotating the array with the molecule' yields the derivative at the new geometry is proved for every pair potential over exact rationals (rigid_motion_covariance) and, like 'permuting rows with the atoms', checked numerically on the implementation after every step; that the code's rotation matrix is orthogonal is part of that numeric check",
-    "gradient/Hessian objects handed to the setters are not mutated by the caller afterwards (the setter stores Gradient/Hessian instances by reference)",
+    "gradient/Hessian objects handed to the setters are fresh, not shared between species and not mutated by the caller afterwards (Hessian instances are deep-copied by the setter since 8033d29, Gradient instances are still stored by reference)",
     "Conformer objects (overridden coordinates/atoms setters) are covered by the implementation-side oracle only",
 ]
 RULE = ("bounded-exhaustive: every sequence over {energy, gradient, hessian, translate, rotate, coordinates:=distorted, "
         "coordinates:=rotated copy, reorder_atoms, frequencies+normal modes, copy} of depth 3 (quick) / 4 (thorough) from a "
         "bare and from a loaded 3-atom species (4-atom: depth 2 / 3); then random sequences of length <= 30 over 40+ "
         "operation variants incl. malformed input; every step of every sequence is one evaluation, non-trivial when the "
-        "operation changed the observable state, raised, or results were present; distinct by (stream, start, path).")
+        "operation changed the observable state, raised, or results were present; distinct by (stream, start, path).  Targeted "
+        "streams: self-aliased vectors, unit-carrying objects, multiplicity inputs, permuted / prefix-equal atom lists, steps and "
+        "rotations around the setter thresholds, thermochemistry-only energies, rejected Hessian objects, non-involutive "
+        "reorderings followed by frequencies and thermochemistry.")
 
 # Source pins: every function of /repo the hand model coq/C14/Model.v (and the structure-mirroring parts of this
 # harness: which arrays an operation transforms, which caches a Hessian object holds) was written from.
@@ -75,6 +78,15 @@ PINS = [(_SP, "Species." + q) for q in (
         "Energies.append", "Energies.last", "ValueArray.__new__", "ValueArray.__array_finalize__",
         "ValueArray.__reduce__", "ValueArray.__setstate__", "Gradient", "_to")] + [
     ("autode/geom.py", q) for q in ("calc_rmsd", "get_rot_mat_kabsch", "get_rot_mat_euler", "get_rot_mat_euler_from_terms")] + [
+    ("autode/conformers/conformer.py", "Conformer." + q) for q in (
+        "__init__", "coordinates", "atoms", "_set_rigidly_moved_coordinates", "translate", "_set_reordered_atoms",
+        "optimise")] + [
+    (_SP, "Species._set_lowest_energy_conformer"), (_SP, "Species.conformers"), (_SP, "Species.print_xyz_file"),
+    ("autode/atoms.py", "Atom.__init__"), ("autode/atoms.py", "Atom.rotate"), ("autode/atoms.py", "Atom.mass"),
+    ("autode/atoms.py", "Atoms.com"), ("autode/atoms.py", "Atoms.moi"), ("autode/atoms.py", "Atoms.are_linear"),
+    ("autode/atoms.py", "AtomCollection.com"),
+    ("autode/values.py", "Coordinate"), ("autode/values.py", "Coordinates"), ("autode/values.py", "_units_init"),
+    ("autode/mol_graphs.py", "make_graph"),
     ("autode/mol_graphs.py", "reorder_nodes"), ("autode/thermochemistry/symmetry.py", "symmetry_number"),
     ("autode/thermochemistry/igm.py", "calculate_thermo_cont"), ("autode/utils.py", "requires_atoms")]
 
@@ -266,7 +278,7 @@ class Run:
         x = self.coords()
         mode = op["mode"]
         if mode == "distort":
-            d = np.asarray(op["delta"], dtype=float)
+            d = np.asarray(op["delta"], dtype=float) * float(op.get("scale", 1.0))
             return x + d[:len(x)], True, False
         if mode == "rot":
             r = rodrigues(op["axis"], op["theta"])
@@ -305,6 +317,10 @@ class Run:
                 return f"SetGrad (GArr [{n + 1};3])", "ValueError", (lambda: setattr(s, "gradient", np.zeros((n + 1, 3))))
             if m == "bad1d":
                 return f"SetGrad (GArr [{3 * n + 1}])", "ValueError", (lambda: setattr(s, "gradient", np.zeros(3 * n + 1)))
+            if m == "badshape":     # the right number of entries in a shape that is neither (n, 3) nor (3n,)
+                sh = [[1, 3 * n], [3 * n, 1], [3, n] if n != 3 else [9, 1, 1]][op.get("which", 0) % 3]
+                return (f"SetGrad (GArr {nat_list(sh)})", "ValueError",
+                        (lambda: setattr(s, "gradient", g.ravel().reshape(sh).copy())))
             return "SetGrad GOther", "ValueError", (lambda: setattr(s, "gradient", g.tolist()))
         if k == "hess":
             m = op["mode"]
@@ -314,6 +330,17 @@ class Run:
                 # a Hessian OBJECT in unit u (stored by reference by the setter, atoms attached by it)
                 return (f"SetHess (HArr [{3 * n};{3 * n}])", "ok",
                         (lambda: setattr(s, "hessian", Hessian(h * float(u.times), units=u))))
+            if m == "inst-atoms":
+                from autode.hessians import Hessian
+                # a Hessian object that brings its OWN frame atoms (a private copy of the current geometry)
+                return (f"SetHess (HArr [{3 * n};{3 * n}])", "ok",
+                        (lambda: setattr(s, "hessian", Hessian(h.copy(), atoms=s.atoms.copy()))))
+            if m == "inst-bad":
+                from autode.hessians import Hessian
+                u = Hessian.implemented_units[op.get("unit", 0) % len(Hessian.implemented_units)]
+                k3 = 3 * n + 3 * op.get("extra", 1)
+                return (f"SetHess (HArr [{k3};{k3}])", "ValueError",
+                        (lambda: setattr(s, "hessian", Hessian(np.eye(k3) * 0.5, units=u))))
             if m == "ok":
                 return f"SetHess (HArr [{3 * n};{3 * n}])", "ok", (lambda: setattr(s, "hessian", h.copy()))
             if m == "none":
@@ -344,6 +371,8 @@ class Run:
         if k == "centre":
             return "Centre", "ok", (lambda: s.centre())
         if k == "coords":
+            if op["mode"] == "ragged":      # size not a multiple of three: reshape((-1, 3)) raises ValueError first
+                return "SetCoordsRagged", "ValueError", (lambda: setattr(s, "coordinates", np.zeros(3 * n + op.get("extra", 1))))
             if op["mode"] == "badrows":
                 rows = n + op.get("extra", 1)
                 return (f"SetCoords {rows} F F", "AssertionError",
@@ -472,40 +501,11 @@ class Run:
             return None
 
     def check_modes(self, x, h, site):
-        from autode.atoms import Atom
         freqs, modes = self.qres
-        masses = np.array([float(Atom(l).mass) for l in self.labels()])
-        he = self.s.hessian
-        # the frequencies must be those of the CURRENT geometry's Hessian (reference from the analytic H)
-        nus, hp, p = vib_reference(masses, x, h)
         ok = True
-        got = np.sort(np.array(freqs[6:]))
-        if len(got) != len(nus) or not np.allclose(got, nus, rtol=1e-6, atol=1e-3):
+        for kind, msg in derived_problems(self.labels(), x, h, freqs, modes):
             ok = False
-            self.finding(f"{site}|stale-frequencies", f"reported vibrational frequencies {got.tolist()} but the current "
-                         f"geometry has {nus.tolist()}")
-        scale = max(1e-12, float(np.abs(hp).max()))
-        for i in range(6, len(modes)):
-            v = modes[i]
-            if v.shape != (hp.shape[0],):
-                ok = False
-                self.finding(f"{site}|stale-normal-modes", f"normal mode {i} has {v.shape[0]} components for a species "
-                             f"with {hp.shape[0] // 3} atoms")
-                break
-            nv = float(np.linalg.norm(v))
-            if abs(nv - 1.0) > 1e-6:
-                ok = False
-                self.finding(f"{site}|bad-normal-mode", f"mode {i} has norm {nv}")
-                break
-            lam = float(v @ hp @ v)
-            res = float(np.linalg.norm(hp @ v - lam * v)) / scale
-            out = float(np.linalg.norm(p @ v - v))
-            if res > 1e-6 or out > 1e-6:
-                ok = False
-                self.finding(f"{site}|stale-normal-modes", f"normal mode {i} returned by the species is not an eigenvector of "
-                             f"the projected Hessian of its current geometry/frame (residual {res:.2e}, rotational/"
-                             f"translational component {out:.2e})")
-                break
+            self.finding(f"{site}|{kind}", msg)
         return ok
 
     # ------------------------------------------------------------------ one step: apply + oracles + trace
@@ -659,6 +659,64 @@ class Run:
         return f"check_trace {self.init_term} [" + "; ".join(f"({o}, {b})" for o, b in self.trace) + "]"
 
 
+def nearly_linear(x, deg=3.0):
+    """all atoms within `deg` degrees of one line (autode then uses 5 instead of 6 rigid modes; the comparison of
+    frequencies is ill-conditioned close to that switch): such geometries are skipped by the derived-quantity oracle"""
+    x = np.asarray(x, dtype=float)
+    d = x[1:] - x[0]
+    u = d[0] / np.linalg.norm(d[0])
+    for v in d[1:]:
+        c = abs(float(v @ u)) / float(np.linalg.norm(v))
+        if c < math.cos(math.radians(deg)):
+            return False
+    return True
+
+
+def derived_problems(labels, x, h, freqs, modes):
+    """frequencies / projected normal modes reported by an object vs. an independent recomputation from coordinates x
+    and the Hessian h (Ha/A^2) that belongs to them.  -> [(kind, message)]"""
+    from autode.atoms import Atom
+    out = []
+    if nearly_linear(x):
+        return out
+    masses = np.array([float(Atom(l).mass) for l in labels])
+    nus, hp, p = vib_reference(masses, np.asarray(x, dtype=float), h)
+    got = np.sort(np.array(freqs[6:]))
+    if len(got) != len(nus) or not np.allclose(got, nus, rtol=1e-6, atol=1e-3):
+        out.append(("stale-frequencies", f"reported vibrational frequencies {got.tolist()} but the current "
+                    f"geometry has {nus.tolist()}"))
+    if modes is None:
+        return out
+    scale = max(1e-12, float(np.abs(hp).max()))
+    for i in range(6, len(modes)):
+        v = modes[i]
+        if v.shape != (hp.shape[0],):
+            out.append(("stale-normal-modes", f"normal mode {i} has {v.shape[0]} components for a species "
+                        f"with {hp.shape[0] // 3} atoms"))
+            break
+        nv = float(np.linalg.norm(v))
+        if abs(nv - 1.0) > 1e-6:
+            out.append(("bad-normal-mode", f"mode {i} has norm {nv}"))
+            break
+        lam = float(v @ hp @ v)
+        res = float(np.linalg.norm(hp @ v - lam * v)) / scale
+        outc = float(np.linalg.norm(p @ v - v))
+        if res > 1e-6 or outc > 1e-6:
+            out.append(("stale-normal-modes", f"normal mode {i} returned by the species is not an eigenvector of "
+                        f"the projected Hessian of its current geometry/frame (residual {res:.2e}, rotational/"
+                        f"translational component {outc:.2e})"))
+            break
+    return out
+
+
+def report_derived(o):
+    """(frequencies, normal modes) as the object reports them now, or None without a Hessian"""
+    fr = o.frequencies
+    if fr is None:
+        return None
+    return [float(f) for f in fr], [np.array(o.normal_mode(i), dtype=float).ravel() for i in range(len(fr))]
+
+
 def base_arr(v):
     """a stored Gradient/Hessian as plain floats in the default units (Ha/A, Ha/A^2), converted with the unit's own
     declared factor (not with .to(), which is code under test)"""
@@ -711,7 +769,7 @@ D3 = [[0.11, -0.07, 0.05], [-0.06, 0.13, 0.09], [0.08, 0.04, -0.12], [-0.05, -0.
 
 
 def alphabet(n):
-    cyc = [[i, (i + 1) % n] for i in range(n)] if n == 4 else [[0, 1], [1, 0], [2, 2]]
+    cyc = [[i, (i + 1) % n] for i in range(n)]
     return [
         {"k": "energy", "some": True},
         {"k": "grad", "mode": "ok2d"},
@@ -755,10 +813,14 @@ def random_op(rng, run):
     if r < 0.20:
         if rng.random() < 0.25:
             return {"k": "grad", "mode": "inst", "unit": rng.randrange(4)}
+        if rng.random() < 0.1:
+            return {"k": "grad", "mode": "badshape", "which": rng.randrange(3)}
         return {"k": "grad", "mode": rng.choice(["ok2d", "ok2d", "okflat", "none", "bad", "bad1d", "list"])}
     if r < 0.31:
         if rng.random() < 0.35:
-            return {"k": "hess", "mode": "inst", "unit": rng.randrange(5)}
+            return {"k": "hess", "mode": rng.choice(["inst", "inst", "inst-atoms"]), "unit": rng.randrange(5)}
+        if rng.random() < 0.1:
+            return {"k": "hess", "mode": "inst-bad", "unit": rng.randrange(5), "extra": rng.choice([1, -1])}
         return {"k": "hess", "mode": rng.choice(["ok", "ok", "ok", "none", "bad", "bad1d", "badbig", "list"])}
     def far_atom():
         # an atom that is not at the origin (a zero vector neither translates nor defines an axis)
@@ -784,8 +846,17 @@ def random_op(rng, run):
     if r < 0.48:
         return {"k": "centre"}
     if r < 0.58:
-        if rng.random() < 0.12:
+        c1 = rng.random()
+        if c1 < 0.10:
             return {"k": "coords", "mode": "badrows", "extra": rng.choice([1, -1, 2])}
+        if c1 < 0.14:
+            return {"k": "coords", "mode": "ragged", "extra": rng.choice([1, 2])}
+        if c1 < 0.24:
+            # between the setter's 1e-8 A threshold and a visible change: finite-difference sized steps / tiny rotations
+            if rng.random() < 0.5:
+                return {"k": "coords", "mode": "distort", "delta": delta(), "scale": rng.choice([1e-5, 1e-4, 1e-3, 1e-2])}
+            return {"k": "coords", "mode": "rot", "axis": axis(), "theta": rng.choice([1e-4, 5e-4, 3e-3, 2e-2]),
+                    "shift": vec(0.5)}
         o = {"k": "coords", "as": rng.choice(["array", "array", "list", "flat"])}
         o.update({"mode": "distort", "delta": delta()} if rng.random() < 0.45 else rigid_mode())
         return o
@@ -799,6 +870,20 @@ def random_op(rng, run):
                 if labs != run.labels():
                     return {"k": "atoms", "mode": "permuted", "labels": labs,
                             "xyz": "same" if rng.random() < 0.5 else delta()}
+        if c0 < 0.3:
+            # an atom list that extends / truncates the current one (equal label prefix, different length)
+            labs = run.labels()
+            if rng.random() < 0.5 and len(labs) == 3:
+                labs2 = labs + [rng.choice(["Cl", "H", "N"])]
+            elif len(labs) == 4:
+                labs2 = labs[:3]
+            else:
+                labs2 = None
+            if labs2 and all(l in Z for l in labs2):
+                x0 = run.coords()
+                xyz = (x0[:len(labs2)].tolist() if len(labs2) < len(labs) else
+                       x0.tolist() + [(x0[0] + np.array([0.2, -0.45, 1.6])).tolist()])
+                return {"k": "atoms", "mode": "replace", "labels": labs2, "xyz": xyz}
         if c0 < 0.5:
             pool = [["N", "H", "F"], ["O", "H", "Cl"], ["C", "H", "F", "Cl"], ["S", "H", "F", "O"], ["O", "H", "F"],
                     ["O", "H", "H"], ["C", "H", "H", "F"]]
@@ -912,6 +997,8 @@ def mutations(x):
 
 
 N_MUT = 25
+GEOMETRY_MUTATIONS = {"coordinates[0]+=", "coordinates-=", "atoms=", "rotate-about-origin", "rotate-about-atom",
+                      "translate", "rotate", "centre", "coordinates", "atom.translate", "atom.coord+=", "reorder_atoms"}
 
 
 def aliasing_probe(ctx, run, tag):
@@ -941,6 +1028,8 @@ def aliasing_probe(ctx, run, tag):
     def family(src, how):
         """-> dict name -> object; 'original' is the source, 'derived' what was made from it"""
         base = run.s.copy()
+        if base.hessian is None:       # results present is what matters here
+            base.energy, base.gradient, base.hessian = e0, g0.copy(), h0.copy()
         if src == "species":
             o = base
         elif src == "conformer":
@@ -983,7 +1072,28 @@ def aliasing_probe(ctx, run, tag):
                 except Exception:   # noqa
                     pass
                 ctx.count("aliasing", (tag, label, direction, name), nontrivial=True)
+                moves = name in GEOMETRY_MUTATIONS
                 for k, o in others.items():
+                    if moves and not k.startswith("holder") and o.hessian is not None:
+                        # what the UNTOUCHED object derives from its Hessian must still belong to its own data
+                        try:
+                            if not isinstance(o, Conformer) and hasattr(o.hessian, "atoms") and o.hessian.atoms is not None \
+                                    and not all(a is b for a, b in zip(o.hessian.atoms, o.atoms)):
+                                out.append((f"aliasing|{label}|hessian.atoms-not-own-atoms",
+                                            f"{label}: the Hessian of the {k} object refers to Atom objects that are not "
+                                            f"that object's atoms", {"source": src, "how": how, "dir": direction,
+                                                                     "mutation": name, "changed_object": k}))
+                            dv = report_derived(o)
+                            probs = derived_problems([a.label for a in o.atoms], np.array(o.coordinates, dtype=float),
+                                                     base_arr(o.hessian), dv[0], dv[1]) if dv else []
+                        except Exception as ex:   # noqa
+                            probs = [(f"derived-broken-{type(ex).__name__}", str(ex))]
+                        for kind, msg in probs[:1]:
+                            out.append((f"aliasing|{label}|{direction}.{name}->{kind}",
+                                        f"{label}: after changing the {direction} object via {name} the {k} object (whose "
+                                        f"coordinates, gradient and Hessian are unchanged) reports: {msg}",
+                                        {"source": src, "how": how, "dir": direction, "mutation": name,
+                                         "fields": [kind], "changed_object": k}))
                     try:
                         diff = Run.snap_diff(before[k], snap(o))
                     except Exception as ex:   # noqa
@@ -1025,6 +1135,7 @@ def conformer_stream(ctx, nseq, length):
             e, g, h = pot(x, ident)
             r = ctx.rng.random()
             dm0 = dist_matrix(x)
+            had_e, had_g = c.energy is not None, c.gradient is not None
             if r < 0.15:
                 op = ("energy",)
                 c.energy = e
@@ -1073,10 +1184,20 @@ def conformer_stream(ctx, nseq, length):
                 d = np.array([[ctx.rng.choice([-1, 1]) * ctx.rng.uniform(0.05, 0.3) for _ in range(3)] for _ in range(n)]).round(3)
                 op = ("coordinates:=distorted", d.tolist())
                 c.coordinates = x + d
-            elif r < 0.9:
+            elif r < 0.87:
                 rm = rodrigues([0.2, 1.0, 0.4], 0.8)
                 op = ("coordinates:=rotated",)
                 c.coordinates = x @ rm.T + 0.5
+            elif r < 0.90:
+                op = ("coordinates:=translated",)
+                c.coordinates = x + np.array([0.4, -1.1, 0.7])
+            elif r < 0.93:
+                rm = rodrigues([1.0, 0.3, -0.4], 1.4)
+                op = ("atoms:=rotated",)
+                c.atoms = Atoms([Atom(a.label, *p) for a, p in zip(c.atoms, x @ rm.T - 0.3)])
+            elif r < 0.96:
+                op = ("copy",)
+                c = c.copy()
             else:
                 d = np.array([[ctx.rng.choice([-1, 1]) * ctx.rng.uniform(0.05, 0.3) for _ in range(3)] for _ in range(n)]).round(3)
                 op = ("atoms:=distorted", d.tolist())
@@ -1086,7 +1207,12 @@ def conformer_stream(ctx, nseq, length):
             e, g, h = pot(x, ident)
             kind = op[0].split(":")[0]
             ctx.count("conformer", (q, len(log)), nontrivial=True, sample={"ops": log[-3:]})
-            moved_rigidly = op[0] in ("translate", "rotate", "centre", "coordinates:=rotated")
+            moved_rigidly = op[0] in ("translate", "rotate", "centre", "coordinates:=rotated", "coordinates:=translated",
+                                      "atoms:=rotated")
+            if moved_rigidly and had_e and c.energy is None:
+                found.append((f"Conformer.{kind}|energies-dropped-by-rigid-motion", f"{op[0]} discarded the energy", list(log)))
+            if op[0] == "coordinates:=translated" and (had_g and c.gradient is None):
+                pass   # discarding is allowed for frame-dependent quantities
             if moved_rigidly and float(np.abs(dist_matrix(x) - dm0).max()) > 1e-9:
                 found.append((f"Conformer.{kind}|not-rigid", f"{op} changed interatomic distances", log))
             bad = []
@@ -1101,6 +1227,16 @@ def conformer_stream(ctx, nseq, length):
                               f"after {op[0]} the conformer still reports {bad} that do not belong to its current coordinates",
                               list(log)))
                 break
+            if c.hessian is not None and ctx.rng.random() < 0.35:
+                try:
+                    dv = report_derived(c)
+                    probs = derived_problems([a.label for a in c.atoms], x, h, dv[0], dv[1])
+                except Exception as ex:   # noqa
+                    probs = [(f"unexpected-{type(ex).__name__}", str(ex))]
+                log.append(["frequencies"])
+                if probs:
+                    found.append((f"Conformer.frequencies|{probs[0][0]}", f"after {op[0]}: {probs[0][1]}", list(log)))
+                    break
     return found
 
 
@@ -1108,6 +1244,145 @@ def conformer_stream(ctx, nseq, length):
 K_LAZY_GRAPH = "Species.reorder_atoms|lazy-graph-reordered-twice"
 K_INT_GRAD = "Species.rotate|integer-gradient-truncated"
 K_CONF_REORDER = "Conformer.reorder_atoms|atoms-not-permuted"
+
+
+K_CONF_INPLACE = "Conformer.coordinates|inplace-edit-keeps-results"
+K_CONF_NONE = "Conformer.atoms|none-then-new-geometry-keeps-results"
+K_SP_NONE = "Species.atoms|none-keeps-results"
+K_GRAD_SHAPE = "Species.gradient|wrong-shape-right-size-accepted"
+K_INIT_MULT = "Species.__init__|non-positive-multiplicity-accepted"
+K_HESS_SHARED = "Species.hessian|instance-shared-by-reference"
+
+
+def special_inputs_r3(ctx):
+    """Round-3 audit inputs, each under a fixed narrow key.  -> [(key, what, replay)]"""
+    from autode.species.species import Species
+    from autode.atoms import Atom, Atoms
+    from autode.conformers.conformer import Conformer
+    from autode.hessians import Hessian
+    out = []
+
+    def rp(case, **kw):
+        return dict({"kind": "special", "case": case}, **kw)
+
+    def loaded(o, x, ident):
+        e, g, h = pot(np.asarray(x, dtype=float), ident)
+        o.energy, o.gradient, o.hessian = e, g.copy(), h.copy()
+        return e, g, h
+
+    def stale(o, ident):
+        """names of results the object reports that do not belong to its current coordinates"""
+        x = np.array(o.coordinates, dtype=float)
+        e, g, h = pot(x, ident)
+        bad = []
+        if o.energy is not None and abs(float(o.energy) - e) > TOL * max(1, abs(e)):
+            bad.append("energy")
+        if o.gradient is not None and not (base_arr(o.gradient).shape == g.shape and np.allclose(base_arr(o.gradient), g, rtol=TOL, atol=TOL)):
+            bad.append("gradient")
+        if o.hessian is not None and not (base_arr(o.hessian).shape == h.shape and np.allclose(base_arr(o.hessian), h, rtol=TOL, atol=TOL)):
+            bad.append("hessian")
+        return bad
+    for n in (3, 4):
+        labels, xyz, _ = BASE[n]
+        ident = list(range(n))
+        mk = lambda: Species("m", [Atom(l, *c) for l, c in zip(labels, xyz)], 0, 1)   # noqa
+        delta = np.array(D3[:n])
+        # (1a) in-place edits of a conformer's coordinates THROUGH its public property
+        for name, edit in (("coordinates += d", lambda c: setattr(c, "coordinates", c.coordinates.__iadd__(delta))),
+                           ("coordinates[0] += 0.37", lambda c: c.coordinates.__setitem__(0, np.array(c.coordinates[0]) + 0.37)),
+                           ("coordinates -= 0.2*x", lambda c: setattr(c, "coordinates", c.coordinates.__isub__(0.2 * np.array(xyz))))):
+            c = Conformer(species=mk(), name="c")
+            loaded(c, xyz, ident)
+            ctx.count("special", ("conformer-inplace", n, name))
+            edit(c)
+            bad = stale(c, ident)
+            if bad:
+                out.append((K_CONF_INPLACE, f"Conformer: `{name}` (non-rigid) leaves {bad} of the old geometry in place",
+                            rp("conformer-inplace", n_atoms=n, edit=name)))
+        # (1b) atoms = None, then atoms at another geometry
+        c = Conformer(species=mk(), name="c")
+        loaded(c, xyz, ident)
+        c.atoms = None
+        c.atoms = Atoms([Atom(l, *p) for l, p in zip(labels, np.array(xyz) * 1.2 + delta)])
+        ctx.count("special", ("conformer-none", n))
+        bad = stale(c, ident)
+        if bad:
+            out.append((K_CONF_NONE, f"Conformer: `atoms = None` followed by `atoms = <other geometry>` keeps {bad}",
+                        rp("conformer-none", n_atoms=n)))
+        # (1c) Species.atoms = None keeps everything although there is no geometry any more
+        s = mk()
+        loaded(s, xyz, ident)
+        s.atoms = None
+        ctx.count("special", ("species-none", n))
+        kept = [nm for nm, v in (("energy", s.energy), ("gradient", s.gradient), ("hessian", s.hessian)) if v is not None]
+        if kept:
+            out.append((K_SP_NONE, f"Species: `atoms = None` leaves a species without atoms (n_atoms = {s.n_atoms}) that still "
+                        f"reports {kept}", rp("species-none", n_atoms=n)))
+        else:
+            s.atoms = [Atom(l, *p) for l, p in zip(labels, xyz)]
+        # (5) gradient of the right size but neither (n, 3) nor (3n,)
+        s = mk()
+        for sh in ((3, n), (1, 3 * n), (3 * n, 1)) + (((2, 2, 3),) if n == 4 else ()):
+            if sh == (n, 3):
+                continue
+            ctx.count("special", ("grad-shape", n, sh))
+            try:
+                s.gradient = np.arange(3.0 * n).reshape(sh)
+                out.append((K_GRAD_SHAPE, f"gradient of shape {sh} for {n} atoms is accepted (stored as "
+                            f"{np.asarray(s.gradient).shape}); documented: must be ({n}, 3) or ({3 * n},)",
+                            rp("grad-shape", n_atoms=n, shape=list(sh))))
+                break
+            except ValueError:
+                pass
+        # (6) multiplicity at construction
+        for m in (0, -1, 0.5, -2.5):
+            ctx.count("special", ("init-mult", n, m))
+            for ctor, nm in ((lambda: Species("m", [Atom(l, *c) for l, c in zip(labels, xyz)], 0, m), "Species"),
+                             (lambda: Conformer(atoms=Atoms([Atom(l, *c) for l, c in zip(labels, xyz)]), mult=m), "Conformer")):
+                try:
+                    o = ctor()
+                    if int(o.mult) <= 0:
+                        out.append((K_INIT_MULT, f"{nm}(..., mult={m}) is constructed with mult = {o.mult}",
+                                    rp("init-mult", n_atoms=n, mult=m, cls=nm)))
+                except ValueError:
+                    pass
+        # (2) one Hessian object handed to two species (new_species; the library does this in calc_thermo(calc=...))
+        s1 = mk()
+        e, g, h = loaded(s1, xyz, ident)
+        s2 = s1.new_species(name="d")
+        s2.hessian = s1.hessian
+        s1.rotate([1.0, 2.0, 3.0], 0.7)
+        ctx.count("special", ("hessian-shared", n))
+        try:
+            dv = report_derived(s2)
+            probs = derived_problems(labels, np.array(s2.coordinates, dtype=float), base_arr(s2.hessian), dv[0], dv[1])
+        except Exception as ex:   # noqa
+            probs = [(f"unexpected-{type(ex).__name__}", str(ex))]
+        if probs:
+            out.append((K_HESS_SHARED, f"s2 = s1.new_species(); s2.hessian = s1.hessian; s1.rotate(...): s2 (not touched, "
+                        f"coordinates and Hessian unchanged) now reports: {probs[0][1]}", rp("hessian-shared", n_atoms=n)))
+        # (12c) adopting the lowest-energy conformer is a geometry change
+        s = mk()
+        loaded(s, xyz, ident)
+        cs = []
+        for j, sc in enumerate((1.15, 1.3)):
+            cj = Conformer(species=s, name=f"c{j}")
+            cj.coordinates = np.array(xyz) * sc + delta * j
+            cj.energy = pot(np.array(cj.coordinates, dtype=float), ident)[0]
+            cs.append(cj)
+        s.conformers = cs
+        ctx.count("special", ("lowest-conformer", n))
+        try:
+            s._set_lowest_energy_conformer()
+            bad = stale(s, ident)
+            if bad:
+                out.append(("Species._set_lowest_energy_conformer|stale-" + "+".join(bad),
+                            f"after adopting the lowest-energy conformer the species reports {bad} of its old geometry",
+                            rp("lowest-conformer", n_atoms=n)))
+        except Exception as ex:   # noqa
+            out.append((f"Species._set_lowest_energy_conformer|unexpected-{type(ex).__name__}", str(ex),
+                        rp("lowest-conformer", n_atoms=n)))
+    return out
 
 
 def special_inputs(ctx):
@@ -1289,6 +1564,54 @@ def run(ctx):
                     r.n0 = n
                     runs.append(r)
                     account("units", r, f"{n}-u{ui}")
+    # 2b+. input classes found missing by the round-3 audit / seeded changes
+    small = [{"k": "coords", "mode": "distort", "delta": D3, "scale": sc} for sc in (1e-5, 1e-4, 1e-3, 1e-2)] + \
+            [{"k": "atoms", "mode": "distort", "delta": D3, "scale": 1e-4}] + \
+            [{"k": "coords", "mode": "rot", "axis": [0.0, 1.0, 1.0], "theta": th, "shift": [0.0, 0.0, 0.0]}
+             for th in (1e-4, 1e-3, 1e-2)] + \
+            [{"k": "atoms", "mode": "rot", "axis": [1.0, 0.2, 0.3], "theta": 5e-4, "shift": [0.1, 0.0, 0.0]}]
+    for n in (3, 4):
+        extra = []
+        # thresholds of the coordinates setter: steps between 1e-8 A and a visible change, tiny rotations
+        extra += [LOADED + [o, {"k": "query", "q": "freq"}] for o in small]
+        # energies that hold ONLY thermochemical contributions, then a non-rigid change
+        for lose in ({"k": "hess", "mode": "none"},
+                     {"k": "coords", "mode": "rot", "axis": [0.0, 1.0, 1.0], "theta": 1.1, "shift": [0.3, 0.0, -0.2]}):
+            for chg in ({"k": "coords", "mode": "distort", "delta": D3}, {"k": "atoms", "mode": "distort", "delta": D3},
+                        {"k": "coords", "mode": "distort", "delta": D3, "scale": 1e-3}):
+                extra.append([{"k": "hess", "mode": "ok"}, {"k": "thermo"}, lose, chg, {"k": "energy", "some": True}])
+        # a rejected Hessian OBJECT of the wrong shape must leave a valid Hessian alone; ragged / wrong-length coordinates
+        for ui in (0, 3):
+            for ex in (1, -1):
+                extra.append(LOADED + [{"k": "hess", "mode": "inst-bad", "unit": ui, "extra": ex}, {"k": "query", "q": "freq"}])
+                extra.append([{"k": "hess", "mode": "inst-bad", "unit": ui, "extra": ex}, {"k": "query", "q": "freq"}])
+        # a Hessian object with its own frame atoms through every motion, then every derived quantity
+        extra.append([{"k": "hess", "mode": "inst-atoms"}, {"k": "query", "q": "freq"}, {"k": "translate", "v": [0.5, -0.25, 0.125]},
+                      {"k": "query", "q": "freq"}, {"k": "rotate", "axis": [1.0, 2.0, 3.0], "theta": 0.7, "origin": [0.3, 0.1, -0.2]},
+                      {"k": "query", "q": "freq"}, {"k": "reorder", "map": [[i, (i + 1) % n] for i in range(n)]},
+                      {"k": "query", "q": "freq"}, {"k": "thermo"}, {"k": "copy"}, {"k": "rotate", "axis": [0.0, 1.0, 1.0], "theta": 1.1},
+                      {"k": "query", "q": "freq"}])
+        for wh in range(3):
+            extra.append(LOADED + [{"k": "grad", "mode": "badshape", "which": wh}, {"k": "energy", "some": True}])
+        extra.append(LOADED + [{"k": "coords", "mode": "ragged", "extra": 1}, {"k": "coords", "mode": "badrows", "extra": 1},
+                               {"k": "energy", "some": True}])
+        # atom lists that extend / truncate the current one (equal label prefix)
+        labs, xyz, _ = BASE[n]
+        if n == 3:
+            extra.append(LOADED + [{"k": "atoms", "mode": "replace", "labels": labs + ["Cl"], "xyz": xyz + [[0.2, -0.45, 1.6]]},
+                                   {"k": "query", "q": "formula"}])
+        else:
+            extra.append(LOADED + [{"k": "atoms", "mode": "replace", "labels": labs[:3], "xyz": xyz[:3]},
+                                   {"k": "query", "q": "formula"}])
+        # non-involutive reorderings with everything stored, then every derived quantity
+        for mp in ([[i, (i + 1) % n] for i in range(n)], [[i, (i - 1) % n] for i in range(n)]):
+            extra.append(LOADED + [{"k": "reorder", "map": mp}, {"k": "query", "q": "freq"}, {"k": "thermo"},
+                                   {"k": "rotate", "axis": [1.0, 2.0, 3.0], "theta": 0.7}, {"k": "query", "q": "freq"}])
+        for ops in extra:
+            r = run_sequence(n, ops)
+            r.n0 = n
+            runs.append(r)
+            account("audit-classes", r, f"{n}")
     # 2b''. every multiplicity input from a loaded species, and same-composition atom lists in another order
     for n in (3, 4):
         for v in (MULT_VALUES if (full or n == 3) else []):
@@ -1336,7 +1659,7 @@ def run(ctx):
     for key, what, log in conformer_stream(ctx, 120 if full else 25, 14):
         findings.append((key, what, {"kind": "conformer", "ops": log}))
     # 4'. special inputs
-    for key, what, rep in special_inputs(ctx):
+    for key, what, rep in special_inputs(ctx) + special_inputs_r3(ctx):
         findings.append((key, what, rep))
     # report findings (shrunk sequences)
     n_viol0 = len(ctx.violations)
@@ -1345,7 +1668,7 @@ def run(ctx):
         if key in seen:
             continue
         seen.add(key)
-        if len(seen) > 6:
+        if len(seen) > 12:
             break
         if rep.get("kind") == "sequence":
             def fails(sub, key=key, n=rep["n_atoms"]):
@@ -1423,7 +1746,7 @@ def replay(ctx, obj):
             print("FINDING", key, ":", what)
         return 1 if out else 0
     if rep.get("kind") == "special":
-        out = special_inputs(ctx)
+        out = special_inputs(ctx) + special_inputs_r3(ctx)
         for key, what, _ in out:
             print("FINDING", key, ":", what)
         return 1 if out else 0
@@ -1432,28 +1755,35 @@ def replay(ctx, obj):
 
 
 MANIFEST = {
-    "technique": "Coq proof over a hand-written state-machine model of Species' result bookkeeping + step-by-step model/"
-                 "implementation correspondence + independent analytic recomputation of every reported quantity",
-    "level_text": ("Machine-checked theorems (coq/C14/Props.v, closed under the global context): the invariant Fresh - every "
-                   "stored energy belongs to the current geometry; gradient, Hessian and everything memoised on the Hessian "
-                   "object carry the current geometry, frame and atom order - holds initially, is preserved by EVERY public "
-                   "operation (set atoms / coordinates with both oracle bits, translate, rotate, centre, set energy / gradient / "
-                   "Hessian incl. wrong shapes, copy, new_species, reorder_atoms, graph / sn / frequencies / formula / radius, "
-                   "calc_thermo, set mult, set graph) from every fresh state and hence after every operation sequence of any "
-                   "length; non-rigid changes discard everything, rigid motions keep energies and transform-or-discard "
-                   "gradient/Hessian; operations on a copy / new species leave every other species of a world unchanged; "
-                   "reorder_atoms renames graph nodes, atoms and array rows by the same permutation; queries change nothing; "
-                   "non-positive multiplicity, wrong-shaped gradient/Hessian and non-bijective mappings are rejected with "
-                   "ValueError without touching the state.  rigid_motion_covariance / translation_changes_nothing: for every pair "
-                   "potential (arbitrary radial functions, any atom count, exact rationals) E(Rx+t)=E(x), G(Rx+t)=R G(x), "
-                   "H(Rx+t) R = R H(x), and a translation changes none of them - the meaning of 'transformed with the frame'."),
-    "level_note": ("The model is hand-written and abstract (identities instead of numbers); it is tied to /repo on every run by "
-                   "comparing, after every step of ~1e3 (quick) / ~3e4 (thorough) exhaustive and random operation sequences, "
-                   "error class, present flags, labels, graph edges, multiplicity and the freshness bits with the real Species, "
-                   "where freshness on the implementation is decided by recomputing E, gradient, Hessian, frequencies, normal "
-                   "modes and thermochemistry from the CURRENT coordinates with an analytic potential (trusted: that oracle, "
-                   "numpy, the input construction of rigid vs non-rigid coordinates).  Conformer objects and in-place aliasing "
-                   "are exercised on the implementation only.  Tolerance-level geometry changes (RMSD <= 1e-8 A) are treated "
-                   "as 'same geometry', as the code does."),
+    "technique": "Coq proof over a hand-written, number-free state-machine model of Species' result bookkeeping + step-by-step "
+                 "model/implementation correspondence + independent analytic recomputation of every reported quantity "
+                 "(the numeric oracle carries the property; the theorems fix the bookkeeping logic)",
+    "level_text": ("Machine-checked (coq/C14/Props.v, 15 theorems, closed under the global context).  PROVED about the model, for "
+                   "all states and all operation sequences: the tag invariant Fresh (every stored energy / gradient / Hessian / "
+                   "memoised value carries the current geometry-, frame- and atom-order identity) holds initially, after every "
+                   "public operation and every sequence (fresh_initially, fresh_step, fresh_reachable, "
+                   "reported_results_are_current); a positive multiplicity stays positive (multiplicity_stays_positive); "
+                   "reorder_atoms renames graph nodes, atoms and array rows by one permutation (reorder_carries_graph); "
+                   "calc_thermo attaches to the current geometry.  PARTIAL (named _partial, they restate what the model's "
+                   "transitions do and rest on the correspondence for content): nonrigid_change_discards_partial and "
+                   "rigid_motion_keeps_energies_transforms_or_discards_partial ('rigid' is the setter's two oracle bits, not "
+                   "derived from coordinates), copies_share_nothing_partial (value semantics: aliasing is not representable), "
+                   "queries_preserve_internal_geometry_partial, invalid_states_rejected_partial.  REFUTED (false of the faithful model and of the code, tied to "
+                   "finding Species.__init__|non-positive-multiplicity-accepted): "
+                   "nonpositive_multiplicity_at_construction_refuted.  SUPPORTING, not linked to the model: "
+                   "rigid_motion_covariance / translation_changes_nothing (pair potentials over Qc: E invariant, G and H "
+                   "covariant under rigid motions; that G, H are derivatives of E is not proved)."),
+    "level_note": ("The model has identities instead of numbers, value semantics (no aliasing), no Conformer class, no `atoms = None`, "
+                   "and a Hessian's own frame atoms are not represented.  Everything numeric and everything about "
+                   "aliasing is established on the implementation only, every run: after every step of ~2.5e3 (quick) / ~2.5e4 "
+                   "(thorough) exhaustive, targeted and random operation sequences the harness compares error class, present flags, "
+                   "labels, edges, multiplicity and freshness bits with the model, where freshness of the real object is decided by "
+                   "recomputing E, gradient, Hessian (any unit), frequencies, normal modes and thermochemistry from its CURRENT "
+                   "coordinates with an analytic potential, incl. steps of 1e-5..1e-2 A and rotations of 1e-4..1e-2 rad around the "
+                   "setter's 1e-8 thresholds; aliasing probes (copy / new_species / conformer of a species and of a conformer, "
+                   "conformer members; raw fields, Hessian.atoms identity and derived quantities of the untouched object); a "
+                   "Conformer stream; fixed special inputs.  Not exercised: optimise()/calc_thermo() through a real method or "
+                   "executor (a mock calculation drives the species' setters), solvents, constraints; in-place edits of the "
+                   "species' own Atom objects (s.atoms[i].coord = ...) are outside the statement (the species cannot observe "
+                   "them).  Trusted: the analytic oracle, numpy, the construction of rigid vs non-rigid inputs, 83 source pins."),
 }
-
